@@ -20,7 +20,7 @@ RULE = (
     "Non-trivial = the table has >= 50 rows and the compared pressure pairs are >= 50 psi apart "
     "(composition cases), or >= 2 rows (synthetic); distinct = descriptor hash."
 )
-MIN_NONTRIVIAL = {"quick": 30, "thorough": 400}
+MIN_NONTRIVIAL = {"quick": 30, "thorough": 1500}
 SHARDS = {"quick": 4, "thorough": 16}
 GENERATOR = {"max_pressure": "quick 1500..3000, thorough 1500..14000", "synthetic": "2..400 rows listed in ascending or descending pressure, p steps 0.1..500 psi, mu 0.005..0.1, Z 0.3..2"}
 ASSUMPTIONS = [
@@ -46,7 +46,7 @@ def setup(ck):
 
 def generate(ck):
     rng = ck.rng
-    n = 36 if ck.tier == "quick" else 520
+    n = 36 if ck.tier == "quick" else 2000
     descs = []
     for i in range(n):
         comp = wl.gas_composition(rng)
@@ -103,6 +103,10 @@ def run_case(ck, desc):
     dry = comp.pop("dryness")
     table = fluids.build_pvt_gas(comp, dry, maximum_pressure=desc["pmax"])
     ck.count("tables_built")
+    # build it a second time after the caller has rescaled its own copy in place (what the flow
+    # module's users do): the routes must still agree on the table that is returned now
+    table["pseudopressure"] = (table["pseudopressure"] - table["pseudopressure"].iloc[len(table) // 3]) / table["pseudopressure"].iloc[-1]
+    table = fluids.build_pvt_gas(comp, dry, maximum_pressure=desc["pmax"])
     P = table["pressure"].to_numpy()
     M = table["pseudopressure"].to_numpy()
     sg, T = comp["Gas Specific Gravity"], comp["Reservoir Temperature (deg F)"]
